@@ -137,14 +137,14 @@ TEXT["C14"] = {
     "technique": "Lean 4 proofs of JSON print/parse inversion, float widening/narrowing and fill-value metadata round trip + exhaustive 8/16-bit and stratified wide differential run",
 }
 TEXT["C05"] = {
-    "level": "Machine-checked proof about the partial-encoding algorithms as implemented: a sharding partial encode from an absent value, and from ANY well-formed tight shard (either index location, "
-             "either index byte order, with/without index checksum), produces a value that decodes to exactly the updated inner chunks and is a legal shard (a sharper variant states exactly when the result "
-             "stays tight); unsharded chains rewrite the value to exactly the encoding of the updated chunk; a partial store write never truncates. The same model PROVES the one open defect: with the index at "
-             "the end, an update that shrinks the live data leaves a stale tail that readers take for the index (pinned witness, kernel-decided). On the real code random histories of partial writes through "
-             "store_chunk_subset/store_array_subset with partial encoding enabled run on sharded and unsharded chains; after every step the raw stored value is judged (exact encoding for modelled chains, "
-             "well-formed shard + sentinel check otherwise) and all elements are read back.",
-    "note": _TB + "Partial: one KNOWN FINDING (index-at-end stale tail, F-C05-K1) is reported as KNOWN-FINDING, not repaired (repair needs a truncating store operation). Concurrent partial writers are out of scope of the model.",
-    "technique": "Lean 4 proofs over a model of the sharding/default partial encoders (decode + well-formedness preservation, pinned defect witness) + raw-stored-value differential histories",
+    "level": "Machine-checked proof about the partial-encoding algorithms as implemented: for EVERY history of sharding partial encodes starting from an absent value (either index location, either index "
+             "byte order, with/without index checksum) the stored value is absent with every inner chunk fill, or decodes to exactly the inner chunks the updates leave and is a legal, tight shard; one step "
+             "from any well-formed tight value preserves this with no side condition; unsharded chains rewrite the value to exactly the encoding of the updated chunk; a partial store write never truncates. "
+             "The model of the code AS FOUND is kept beside it with the kernel-decided witness of the defect that was repaired (index at the end: stale tail after the live data shrinks, F-C05-K1). On the real "
+             "code random histories of partial writes through store_chunk_subset/store_array_subset with partial encoding enabled run on sharded and unsharded chains; after every step the raw stored value is "
+             "judged (exact encoding for modelled chains, well-formed shard + sentinel check otherwise) and all elements are read back; the pinned witness of the repaired defect runs first as a regression.",
+    "note": _TB + "Partial: concurrent partial writers are out of scope of the model; key sets are not compared under partial encoding (see DESIGN 10.5); nested sharding is corresponded, not part of the shard-level theorems.",
+    "technique": "Lean 4 proofs over a model of the sharding/default partial encoders (history invariant: decode + well-formedness + tightness; pinned defect witness) + raw-stored-value differential histories",
 }
 TEXT["C13"] = {
     "level": "Machine-checked proof over a model of serde's reading/writing of MetadataV3, additional fields, ArrayMetadataV3 and GroupMetadataV3 on ordered JSON: what is written reads back as the same value "
